@@ -15,6 +15,9 @@ CHECKS = {
  "C08": ("fault_enumeration", "bounded exhaustive history enumeration on the real dkv.DB x every crash point (snapshot of the file set after every mutating storage operation), restore of every retained handle on every snapshot vs the map captured at the Checkpoint call",
          "every history up to depth 5-6 over put/delete/Checkpoint/retention update/restore (same or new directory)/hold+release of background work; after every storage operation following the return of a handle, a fresh dkv.Open on a copy of the files must reproduce the captured map, not panic and accept new writes",
          "no torn writes (a completed storage operation is durable, an incomplete one invisible); GC-driven deletions are C09's subject; flush/compaction interleavings inside the quiescence wait are left to the Go scheduler in this tier", "DESIGN.md §5 C08"),
+ "C09": ("exploration", "bounded exhaustive history enumeration on real dkv.DB instances with garbage collection as an explicit enumerated action (runtime.GC + cleanup barrier), file-existence oracle over retained checkpoint documents plus reads of the live level set",
+         "single database: every history up to depth 5-6 over write burst / Checkpoint / retention update / reopen in the same process (old object dropped or kept, same or new directory) / forced GC; neighbours: rescale 1->N with the real OperatorPartition policy, simulated operator processes (own file names), every combination of neighbour answers (truthful / error / hang) and every order of bursts, job checkpoints, retention notifications and GC up to depth 4-6",
+         "GC completeness depends on the collector finding the garbage (deletions that are reported are real); simulated processes share one Go heap; MemoryFilesystem", "DESIGN.md §5 C09"),
  "C17": ("exploration", "bounded exhaustive input/history enumeration on the real SST and WAL code vs reference lists",
          "every run of 0..50 entries from a 56-key universe (binary, empty, prefix-related keys; tombstone masks exhaustive up to 8 entries), whole and split at every target size, every lookup key / prefix, descriptor JSON round trip; every WAL history over put/delete/cut/truncate/rotate+save up to depth 6-7 with every legal start marker",
          "bounded sizes and alphabet; MemoryFilesystem stands for all file systems", "DESIGN.md §5 C17"),
